@@ -5,6 +5,7 @@
 package subs
 
 import (
+	"sync/atomic"
 	"encoding/json"
 	"fmt"
 	"math/rand"
@@ -28,6 +29,7 @@ type config struct {
 	queue  string
 	setQ   bool
 	layout int // how the handlers of the registered kinds are laid out in the pattern tree (see register)
+	failAt int // >0: the connection refuses the failAt-th subscription of the Serve call
 	pre    int // calls made on the new, stopped service before the handlers are registered: 1 ResetAll, 2 ResetAll after one handler-less pattern, 3 Reset
 	relife int // 1: a first life with default ownership, the explicit lists are set after its Shutdown; 2: set while that first life runs
 }
@@ -207,6 +209,17 @@ func observe(cfg config) (rec, error) {
 		s.SetOwnedResources(cfg.rr, cfg.ra)
 	}
 	conn := rconn.New(nil)
+	var refused int32
+	if cfg.failAt > 0 {
+		var nsub int32
+		conn.FailSub = func(string) error {
+			if int(atomic.AddInt32(&nsub, 1)) == cfg.failAt {
+				atomic.StoreInt32(&refused, 1)
+				return fmt.Errorf("subscription refused")
+			}
+			return nil
+		}
+	}
 	subscribed := make(chan error, 1)
 	res.VerifHook = func(p string, a ...interface{}) {
 		if p == "sv.subscribed" {
@@ -247,6 +260,26 @@ func observe(cfg config) (rec, error) {
 		}
 	case <-time.After(5 * time.Second):
 		return nil, fmt.Errorf("Serve did not reach subscribe")
+	}
+	if cfg.failAt > 0 && atomic.LoadInt32(&refused) == 0 {
+		// (the service makes fewer subscriptions than that: an ordinary run)
+	} else if cfg.failAt > 0 && !served {
+		select { // the service gave up, as it should
+		case <-done:
+		case <-time.After(5 * time.Second):
+			return nil, fmt.Errorf("Serve did not return after a refused subscription")
+		}
+		return nil, nil
+	} else if cfg.failAt > 0 {
+		// a subscription was refused and the service serves all the same: it announces (system.reset) resources
+		// whose requests it will never receive
+		resetSent := len(conn.PubsOn("system.reset")) > 0
+		s.Shutdown()
+		select {
+		case <-done:
+		case <-time.After(5 * time.Second):
+		}
+		return nil, fmt.Errorf("subscription number %d was refused, yet Serve went on (system.reset sent: %v, %d subscriptions made)", cfg.failAt, resetSent, len(conn.Subs()))
 	}
 	if served {
 		// wait for the start-up reset, then ask for another one
@@ -467,8 +500,16 @@ func Run(c *core.Ctx) {
 	for i := range cfgs {
 		cfgs[i].pre = []int{0, 1, 0, 2, 0, 3}[rng.Intn(6)]
 	}
+	// a refused subscription: the service gives up (with and without queue group)
+	for i := 0; i < c.Pick(24, 120); i++ {
+		sn := []string{"s", "", "s"}[i%3]
+		cfgs = append(cfgs, config{sn: sn, hasRes: true, hasAcc: i%2 == 0, setQ: i%3 != 0, queue: []string{"", "qg"}[i%2], layout: i % nLayouts, failAt: 1 + i%9})
+	}
 	for _, cfg := range cfgs {
 		r, err := observe(cfg)
+		if r == nil && err == nil {
+			continue
+		}
 		if err != nil {
 			c.Violate(core.Violation{Signature: map[string]string{"engine": "subs", "kind": "serve-failed", "cfg": fmt.Sprintf("%+v", cfg)}, Text: err.Error(), Replay: fmt.Sprintf("%+v", cfg)})
 			continue
